@@ -5,7 +5,9 @@ import random
 import sys
 
 sys.path.insert(0, '/verif/lib')
+sys.path.insert(0, '/verif/checks')
 import vlib
+import execx
 import progs
 from vlib import Inconclusive
 
@@ -125,9 +127,13 @@ def report(chk, scs, recs, v):
 def run(tier, replay=None):
     chk = vlib.Check('C12', tier)
     chk.assumptions = vlib.TRUSTED
-    with vlib.WorkCopy('c12', harness=['prog']) as w:
+    with vlib.WorkCopy('c12', harness=['prog', 'c12x']) as w:
         if replay:
-            scs = [json.load(open(os.path.join(replay, 'replay.json')))['payload']['scenario']]
+            payload = json.load(open(os.path.join(replay, 'replay.json')))['payload']
+            if 'xcase' in payload:
+                execx.run(chk, w, tier, replay_case=payload['xcase'])
+                return chk.finish()
+            scs = [payload['scenario']]
             scs[0]['id'] = 1
         else:
             scs = gen(tier)
@@ -141,4 +147,8 @@ def run(tier, replay=None):
         chk.sample({'scenario': scs[0]})
         chk.sample({'events': [{k: e[k] for k in e if k not in ('prog', 'taps')} for e in recs[0]['events'][:6]]})
         report(chk, scs, recs, v)
+        if not replay:
+            # executor level: Exec.tla (design model, exhaustive), real sessions with a Discard in the window between
+            # 'marked OK' and 'assigned', machine kills at executor events; ExecMon judges, ExecTrace validates
+            execx.run(chk, w, tier)
         return chk.finish()
